@@ -8,22 +8,22 @@ VERIF = os.path.dirname(os.path.dirname(os.path.abspath(__file__)))
 CLAIMED = {
     "C01": ("exploration",
             "stateful property-based testing (rapid): branching operation histories over a pool of live meshes with a bit-exact snapshot invariant after every step",
-            "Generated histories (up to 40 steps, <= 8 live meshes) of ~55 public operations (Mesh methods, meshops, repeat, primitives, PLY/OBJ/glTF/STL writers) applied to drawn pool members, so several derivations branch off one base; after every step every live mesh is re-read through the accessors and compared bit for bit with the snapshot taken when it was obtained. Shrinks to a 5-step history for the Append defect. Sampling level (10^4..10^6 histories), not a proof.",
+            "Generated histories (up to 40 steps, <= 8 live meshes) of ~55 public operations (Mesh methods, meshops, repeat, primitives, PLY/OBJ/glTF/STL writers) applied to drawn pool members, so several derivations branch off one base; after every step every live mesh is re-read through the accessors and compared bit for bit with the snapshot taken when it was obtained. A drawn share of steps derives siblings from the previous step's base (two appends on one base with spare slice capacity), one fresh mesh in eight carries NaN/Inf/-0/extreme values, material names contain spaces, and a 'scan' step calls the read-only accessors between edits. Shrinks to a 5-step history for the Append defect. Sampling level (10^4..10^6 histories), not a proof.",
             "Trusted: oracle.Snapshot reads everything a mesh reports; operations that panic are no-ops for this property; aliasing needing > 40 steps or > 8 live values is out of reach.",
             "DESIGN.md §4 C01"),
     "C02": ("exploration",
             "property-based testing (rapid): generator parameterisations (small counts enumerated) and random operation chains against a well-formedness + accessor-walk validity predicate",
-            "Every one of 19 generator families over its accepted parameter range (rows/columns/sides grids enumerated exhaustively for small counts, sampled above) and chains of 1..8 operations from a 50-operation catalogue over generated well-formed meshes and earlier results must return meshes that pass oracle.WF (common attribute length, indices in range, index count fits topology, every primitive walkable) or report failure; a Go runtime error is a violation. Unmet preconditions are attempted only where the library checks them. Sampling level.",
+            "Every one of 19 generator families over its accepted parameter range (rows/columns/sides grids enumerated exhaustively for small counts, sampled above) and chains of 1..8 operations from a 50-operation catalogue over generated well-formed meshes and earlier results must return meshes that pass oracle.WF (common attribute length, indices in range, index count fits topology, every primitive walkable) or report failure; a Go runtime error is a violation; every mesh of a chain is re-checked at the end of the chain (an earlier result must not become malformed later), chains favour sibling derivations, and one source in a drawn share has more than 65 536 vertices. Unmet preconditions are attempted only where the library checks them. Sampling level.",
             "Trusted: oracle.WF, the precondition table in harness/internal/mops (implicit preconditions the library does not check are never violated).",
             "DESIGN.md §4 C02"),
     "C03": ("exploration",
-            "property-based testing (rapid): generated meshes x 33 operations against reference implementations over per-corner attribute tuples (bit-exact) and float64 maps",
-            "Every layout operation is compared with a reference written from its contract over per-corner attribute tuples (exact by bit pattern, weld: first vertex of the rounding cell), every attribute transform with the stated per-vertex map plus 'indices, topology, materials and all other attributes bit-identical'; generator constructs non-identity indices, shared/duplicated/unreferenced vertices and mixed attribute arities. Sampling level.",
+            "property-based testing (rapid): generated meshes x 34 operations against reference implementations over per-corner attribute tuples (bit-exact) and float64 maps",
+            "Every layout operation is compared with a reference written from its contract over per-corner attribute tuples (exact by bit pattern, weld: first vertex of the rounding cell), every attribute transform with the stated per-vertex map plus 'indices, topology, materials and all other attributes bit-identical'; generator constructs non-identity indices, shared/duplicated/unreferenced vertices and mixed attribute arities; 'appendTwice' appends to one over-allocated base twice; sub-check large-meshes repeats the closed-form operations on recipe-built meshes above 65 536 vertices. Sampling level.",
             "Trusted: the reference implementations in harness/c03. Filters/crop only on point topology; don't-care band around minArea; undefined normals not compared.",
             "DESIGN.md §4 C03"),
     "C04": ("exploration",
             "property-based testing (rapid): round trip write->read in three encodings, own header parser + size law, differential between encodings",
-            "Generated point clouds and triangle meshes (any index pattern, any subset of recognised and user-named attributes, 60 orders of magnitude) written by ply.Write / custom MeshWriters in ascii, LE and BE: the harness's own header parser checks that the header describes the body (byte/line/token counts, endianness named in the header text), ReadMesh must return the same topology, primitive count and per-corner values at the stored type's precision (float32 image exactly for binary, 1 float32 ulp for ascii text, 1/255 for 8-bit), nothing invented, and the three encodings must decode to the same mesh. Sampling level.",
+            "Generated point clouds and triangle meshes (any index pattern, any subset of recognised and user-named attributes, 60 orders of magnitude) written by ply.Write / custom MeshWriters in ascii, LE and BE: the harness's own header parser checks that the header describes the body (byte/line/token counts, endianness named in the header text), ReadMesh must return the same topology, primitive count and per-corner values at the stored type's precision (float32 image exactly for binary, 1 float32 ulp for ascii text, 1/255 for 8-bit), nothing invented, and the three encodings must decode to the same mesh. Sub-check concurrent-writers: goroutines write meshes sharing attribute maps through default and custom writers; every output must equal the sequential bytes. Sampling level.",
             "Trusted: the harness header parser. Point clouds carry identity indices (format has no point index list); uchar scalars excluded in ascii (known finding ascii-uchar-scalar-raw, pinned reproducer).",
             "DESIGN.md §4 C04"),
     "C05": ("exploration",
@@ -43,7 +43,7 @@ CLAIMED = {
             "DESIGN.md §4 C07"),
     "C08": ("exploration",
             "property-based testing (rapid): independent reference ENCODER emits files from the specification's grammar; expected mesh computed from the description",
-            "An independent reference encoder (harness/internal/plyref) emits PLY files with any property order, alias spellings, unrecognised scalars, comment/obj_info lines, CRLF headers, uchar/int/uint counts, int/uint indices, triangles and quads, optional texcoord list before/after the index list, in ascii/LE/BE; the decoded mesh must equal the mesh the specification assigns (vertex i = record i, 8-bit /255, quad fan (0,1,2)(0,2,3), per-face uvs per corner, nothing invented). Sampling level.",
+            "An independent reference encoder (harness/internal/plyref) emits PLY files with any property order, alias spellings, unrecognised scalars, comment/obj_info lines, CRLF headers, uchar/int/uint counts, int/uint indices, triangles and quads, optional texcoord list before/after the index list, in ascii/LE/BE; the decoded mesh must equal the mesh the specification assigns (vertex i = record i, 8-bit /255, quad fan (0,1,2)(0,2,3), per-face uvs per corner, nothing invented). Each file is delivered through one of six reader behaviours (whole, 1 byte per Read, half reads, 7-byte chunks, data with the final error, small bufio); one file in twelve has 100-400 vertices. Sampling level.",
             "Trusted: the reference encoder. One scalar type per group; uchar scalars excluded in ascii (known finding, pinned reproducer).",
             "DESIGN.md §4 C08"),
     "C09": ("exploration",
@@ -53,17 +53,17 @@ CLAIMED = {
             "DESIGN.md §4 C09"),
     "C10": ("exploration",
             "property-based testing (rapid) under the Go race detector, repeated under taskset CPU masks: visit-count / bit-identical-output / triangle-multiset differential against the sequential variants",
-            "Generated element counts (incl. fewer than workers, non-multiples), pool sizes 1..33, three topologies: every primitive/element visited exactly once with its own data, Modify*Parallel bit-identical to sequential; asymmetric marching fields inside one block or across boundaries: AddFieldParallel, AddFieldParallel2, MarchParallel give the sequential triangle multiset. The binary is race-instrumented; any race report while a case runs is a violation; campaigns run concurrently under taskset masks so NumCPU-sized pools vary. Schedules are sampled, not owned.",
+            "Generated element counts (incl. fewer than workers, non-multiples), pool sizes 1..33, three topologies: every primitive/element visited exactly once with its own data, Modify*Parallel bit-identical to sequential; asymmetric marching fields inside one block or across boundaries: AddFieldParallel, AddFieldParallel2, MarchParallel give the sequential triangle multiset. Thorough tier adds marching-blocks (a field covering a whole storage block, capsules 420 and 2050 cells long: more jobs than workers and than the job channel holds; 15-minute watchdog = 'hang'). The binary is race-instrumented; any race report while a case runs is a violation; campaigns run concurrently under taskset masks so NumCPU-sized pools vary. Schedules are sampled, not owned.",
             "Trusted: the Go race detector; callbacks are race-free. Rare interleavings are only sampled.",
             "DESIGN.md §4 C10"),
     "C11": ("exploration",
             "stateful model-based property testing (rapid): action histories against a from-scratch evaluator and a logical-clock execution model",
-            "Generated histories (up to 72 actions, <= 14 nodes) of add node / connect / reconnect / disconnect (incl. array inputs) / set source (also same value, parameter sources through ApplyMessage) / read / State() over harness-defined processors that count their executions: every read equals a from-scratch evaluation; a processor executes during a read only if something in its upstream closure changed since its last execution, at most once; Version() == executions after every step; State() matches the model. Replays of failing histories run 20x because the pinned-tree defect depended on map order. Sampling level.",
+            "Generated histories (up to 72 actions, <= 14 nodes) of add node / connect / reconnect / disconnect (incl. array inputs) / set source (also same value, parameter sources through ApplyMessage) / read / State() over harness-defined processors that count their executions: every read equals a from-scratch evaluation; a processor executes during a read only if something in its upstream closure changed since its last execution, at most once; Version() == executions after every step; State() matches the model. Histories include a CLI-bound parameter, bursts of 2/255/256/257/512/1024 consecutive edits and a drawn prefix before the first read. Replays of failing histories run 20x because the pinned-tree defect depended on map order. Sampling level.",
             "Trusted: the model in harness/c11. Processors read all connected inputs; acyclic graphs.",
             "DESIGN.md §4 C11"),
     "C12": ("exploration",
             "stateful property testing (rapid) on generator.App through a build-tag hook: edit histories, save -> load into a fresh App -> compare -> save again; shipped graph files enumerated",
-            "Generated edit histories (up to ~90 actions) over every registered node type (all packages cmd/polyform imports + two harness nodes): create, connect incl. array inputs beyond ten entries, disconnect, parameter updates of every parameter type, rename, producers, nested metadata set/delete, delete; at drawn points and at the end the graph is saved, loaded into a fresh App and compared (ids, types, ordered dependencies, parameter payloads, producers, metadata, app fields), artifacts of deterministic producers compared, second save byte-identical, two saves identical; every shipped graph file loaded/saved/loaded/saved. Known finding (jbtf ignores bufferView length) excluded by construction and pinned. Sampling level.",
+            "Generated edit histories (up to ~90 actions) over every registered node type (all packages cmd/polyform imports + two harness nodes): create, connect incl. array inputs beyond ten entries, disconnect, parameter updates of every parameter type, rename, producers, nested metadata set/delete, delete; at drawn points and at the end the graph is saved, loaded into a fresh App and compared (ids, types, ordered dependencies, parameter payloads, producers, metadata, app fields), artifacts of deterministic producers compared, second save byte-identical, two saves identical; bursts of up to 130 nodes and text artefacts, saved parameter data compared entry by entry; every shipped graph file loaded/saved/loaded/saved. Known finding (jbtf ignores bufferView length) excluded by construction and pinned. Sampling level.",
             "Trusted: graph.Instance.Schema() as the observable view plus ParameterData; hook generator/verif_hooks.go (add-only, build tag verif).",
             "DESIGN.md §4 C12"),
     "C13": ("exploration",
@@ -73,8 +73,8 @@ CLAIMED = {
             "DESIGN.md §4 C13"),
     "C14": ("fault_enumeration",
             "fault enumeration over generated files: EVERY cut position (every token boundary for ascii bodies) of each generated valid PLY/STL/SPZ/.splat/PTS file is decoded and classified",
-            "For each generated valid file (reference-encoded and writer-produced PLY in three encodings with faces/texcoords/quads, binary STL, gzip'd SPZ v1/v2 with arbitrary packed bytes, .splat, PTS with 3/4/7 columns) every cut position is decoded under a watchdog: outcome must be an error, the complete mesh (only trailing framing cut), the fully contained splats, or a value-equal subset; a runtime panic, fabricated/shifted value, extra element or non-termination is a violation. Exhaustive per file (~300 cuts/file, ~10^6 cuts quick); files are sampled.",
-            "Trusted: decode of the complete file as the reference; 10 s watchdog as 'terminates'. In-number cuts of ascii bodies are outside the quantifier.",
+            "For each generated valid file (reference-encoded and writer-produced PLY in three encodings with faces/texcoords/quads, binary STL, gzip'd SPZ v1/v2 with arbitrary packed bytes, .splat, PTS with 3/4/7 columns) every cut position is decoded under a watchdog: outcome must be an error, the complete mesh (only trailing framing cut), the fully contained splats, or a value-equal subset; a runtime panic, fabricated/shifted value, extra element or non-termination is a violation. Files are delivered through six reader behaviours (short reads, data with the final error). Sub-check large-files: element counts at 255/256/65 535/65 536 and buffer-size multiples with 24 sampled cuts each. Exhaustive per file (~300 cuts/file, ~10^6 cuts quick); files are sampled.",
+            "Trusted: decode of the complete file as the reference; watchdog (10 s, re-confirmed for another 50 s before it is reported) as 'terminates'. In-number cuts of ascii bodies are outside the quantifier.",
             "DESIGN.md §4 C14"),
     "C15": ("exploration",
             "property-based testing (rapid): .splat and splat-PLY round trips with per-field quantisation bounds; SPZ reference encoder with exact dequantisation oracle; exhaustive half-float grid",
@@ -82,9 +82,9 @@ CLAIMED = {
             "Trusted: the SPZ reference encoder and dequantisation formulas in harness/c15. Identity-indexed clouds; SPZ alpha linear as the loader documents.",
             "DESIGN.md §4 C15"),
     "C16": ("exploration",
-            "property-based testing (rapid): differential against an exhaustive scan over the same element objects, with a don't-care band at decision boundaries",
-            "Generated point/segment/triangle sets (clustered, grid-aligned, coincident, single element), depths 0..6 and automatic, query points on/off vertices, radii, rays: ClosestPoint distance and index, containing-point / within-range / ray sets (band 1e-9*scale), traversal with shrinking max, bounding box; BVH vs HitList vs octree-of-hittables vs mesh hit (flag and distance). Sampling level.",
-            "Trusted: Element methods (only pruning is under test); band keeps 1-ulp box re-centring ties silent.",
+            "property-based testing (rapid): differential against an exhaustive scan over the same element objects (don't-care band at decision boundaries), the elements themselves judged against closest-point geometry computed from the case's vertices",
+            "Generated point/segment/triangle sets (clustered, grid-aligned, coincident, single element), depths 0..6 and automatic, query points on/off vertices, radii, rays: ClosestPoint distance and index, every element's own closest point against the point-to-point/segment/triangle distance from the case's vertices (1e-7*scale; triangles thinner than 1e-4 counted, not judged; trees built on a non-position attribute carry a decoy position attribute), containing-point / within-range / ray sets (band 1e-9*scale), traversal with shrinking max, bounding box; BVH vs HitList vs octree-of-hittables vs mesh hit (flag and distance). Sampling level.",
+            "Trusted: element bounding boxes and ray tests (pruning and the closest-point contract are under test); band keeps 1-ulp box re-centring ties silent.",
             "DESIGN.md §4 C16"),
     "C17": ("exploration",
             "property-based testing (rapid): generated operands vs loop-written reference formulas; exhaustive basis-matrix enumeration",
